@@ -16,7 +16,7 @@ package oidc
 
 import (
 	"context"
-	"math/rand"
+	"crypto/rand"
 	"time"
 
 	"github.com/redis/go-redis/v9"
@@ -147,9 +147,7 @@ var (
 
 type (
 	// randomGenerator is a session generator that uses random strings.
-	randomGenerator struct {
-		rand *rand.Rand
-	}
+	randomGenerator struct{}
 
 	// staticGenerator is a session generator that uses static strings.
 	staticGenerator struct {
@@ -161,10 +159,10 @@ type (
 )
 
 // NewRandomGenerator creates a new random session generator.
+// Session ids, nonces and states are drawn from the operating system's CSPRNG (crypto/rand) so that
+// they cannot be derived from each other or from the time of the request.
 func NewRandomGenerator() SessionGenerator {
-	return &randomGenerator{
-		rand: rand.New(rand.NewSource(time.Now().UnixNano())),
-	}
+	return &randomGenerator{}
 }
 
 func (r randomGenerator) GenerateSessionID() string {
@@ -185,9 +183,18 @@ func (r randomGenerator) GenerateCodeVerifier() string {
 
 func (r *randomGenerator) generate(n int) string {
 	const charset = "abcdefghijklmnopqrstuvwxyzABCDEFGHIJKLMNOPQRSTUVWXYZ0123456789"
-	b := make([]byte, n)
-	for i := range b {
-		b[i] = charset[r.rand.Intn(len(charset))]
+	// Largest multiple of len(charset) that fits in a byte: bigger values are rejected to avoid modulo bias.
+	const maxByte = 256 - (256 % len(charset))
+	b := make([]byte, 0, n)
+	buf := make([]byte, n)
+	for len(b) < n {
+		// crypto/rand.Read never returns an error: it aborts the program if the OS entropy source fails.
+		_, _ = rand.Read(buf)
+		for _, c := range buf {
+			if int(c) < maxByte && len(b) < n {
+				b = append(b, charset[int(c)%len(charset)])
+			}
+		}
 	}
 	return string(b)
 }
